@@ -37,11 +37,18 @@ func c06Stream(r *hx.Rand, tier string, n int, w *bufio.Writer) map[string]int {
 	}
 	stats := map[string]int{}
 	sy := newSymbols()
-	keys := hx.Keys()
-	signers := []struct {
+	// a signing key of EVERY algorithm the library supports for signing (RS/PS/ES 256-384-512, EdDSA); the first key pair of the
+	// ring that can sign with it (c06hist.go: hx.Keys plus P-384 / P-521 / further pairs generated once per run)
+	type c06Signer struct {
 		k   *hx.Key
 		alg string
-	}{{keys[0], "RS256"}, {keys[0], "RS384"}, {keys[0], "PS256"}, {keys[2], "ES256"}, {keys[4], "ES384"}, {keys[5], "EdDSA"}}
+	}
+	var signers []c06Signer
+	for _, alg := range c06Algs {
+		signers = append(signers, c06Signer{c06KeysFor(alg)[0], alg})
+	}
+	// RS256 stays the most frequent one (the modal class of the stream)
+	signers = append(signers, signers[0], signers[0])
 	flows := []string{"code", "code", "implicit", "implicit-idonly", "refresh", "device", "exchange-id", "jwt-bearer", "client-credentials"}
 	var hist *c06Hist // the running history (nil: the next case starts a new one)
 	histSeq := 0
@@ -61,15 +68,12 @@ func c06Stream(r *hx.Rand, tier string, n int, w *bufio.Writer) map[string]int {
 				}
 				bed.Store.UserinfoInIDToken = r.Chance(50)
 				if r.Chance(35) {
-					// key-rotation window: a retired key of the same type is still published
-					old := keys[1]
-					if sg.k.Kty == "EC" {
-						old = keys[3]
-					} else if sg.k.Kty == "OKP" {
-						old = keys[6]
-					}
-					if sg.alg != "ES384" {
-						bed.Store.AddPublishedKey("retired", jose.SignatureAlgorithm(sg.alg), old.Pub, "sig")
+					// key-rotation window: a retired key of the same type (and curve) is still published
+					for _, old := range c06KeysFor(sg.alg) {
+						if old != sg.k {
+							bed.Store.AddPublishedKey("retired", jose.SignatureAlgorithm(sg.alg), old.Pub, "sig")
+							break
+						}
 					}
 				}
 				hist = &c06Hist{id: histSeq, steps: 1, beds: []*opbed.Bed{bed}, srvs: []*httptest.Server{httptest.NewServer(bed.Handler)},
@@ -348,6 +352,12 @@ func c06Stream(r *hx.Rand, tier string, n int, w *bufio.Writer) map[string]int {
 			l.B("o.idtoken", true).B("o.rpverifies", verr == nil)
 			sno, skid, salg := c06SignedBy(idToken)
 			l.I("o.idsigner", sno).S("o.idkid", skid).S("o.idalg", salg)
+			// at_hash / c_hash are judged against a reference computed with the standard library only (hx.RefClaimHash), by the
+			// algorithm the HEADER of this ID token names (OIDC Core 3.1.3.6 / 3.3.2.11)
+			hashAlg := salg
+			if hashAlg == "" {
+				hashAlg = sgAlg
+			}
 			if verr != nil {
 				l.S("o.rperr", verr.Error())
 			}
@@ -363,25 +373,25 @@ func c06Stream(r *hx.Rand, tier string, n int, w *bufio.Writer) map[string]int {
 			// c_hash
 			chOK := true
 			if claims.CodeHash != "" || code != "" && flow == "code" {
-				want := hx.RefClaimHash(code, sgAlg)                   // reference hash: standard library only
+				want := hx.RefClaimHash(code, hashAlg)                   // reference hash: standard library only
 				chOK = claims.CodeHash == "" || claims.CodeHash == want // c_hash is optional in the token response
 			}
 			l.B("o.chash", chOK)
 			// at_hash: when present it must be the spec hash of the access token of this very response
-			l.B("o.athash", claims.AccessTokenHash == "" || accessToken == "" || claims.AccessTokenHash == hx.RefClaimHash(accessToken, sgAlg))
+			l.B("o.athash", claims.AccessTokenHash == "" || accessToken == "" || claims.AccessTokenHash == hx.RefClaimHash(accessToken, hashAlg))
 			// the hashes in the symbolic spelling of the model: over the access token, the code, or something else
 			canon := func(h string) string {
-				fam := hx.HashFamily(sgAlg)
+				fam := hx.HashFamily(hashAlg)
 				switch {
 				case h == "":
 					return ""
-				case accessToken != "" && h == hx.RefClaimHash(accessToken, sgAlg):
+				case accessToken != "" && h == hx.RefClaimHash(accessToken, hashAlg):
 					return "H(" + fam + "/2,AT)"
-				case code != "" && h == hx.RefClaimHash(code, sgAlg):
+				case code != "" && h == hx.RefClaimHash(code, hashAlg):
 					return "H(" + fam + "/2,CODE)"
-				case h == hx.RefClaimHash(accessToken+code, sgAlg):
+				case h == hx.RefClaimHash(accessToken+code, hashAlg):
 					return "H(" + fam + "/2,ATCODE)"
-				case h == hx.RefClaimHash(code+accessToken, sgAlg):
+				case h == hx.RefClaimHash(code+accessToken, hashAlg):
 					return "H(" + fam + "/2,CODEAT)"
 				}
 				return "other"
